@@ -304,6 +304,9 @@ def make(rng, flavor, hid, cls=None, nops=None, start=None):
         hdr += " prof=" + flavor["prof"]
     if flavor.get("panic") and cls in TRACKED and getattr(g, "want_cp", None) and rng.random() < 0.7:
         hdr += " cp=" + ",".join(map(str, sorted(set(g.want_cp))))
+    elif flavor.get("clone_panics") and cls in TRACKED and g.fresh > 0 and rng.random() < 0.25 and \
+            any(o.split()[0] in ("clone", "cloneit") for o in g.ops):
+        hdr += " cp=" + ",".join(map(str, sorted(set(rng.randrange(g.fresh) for _ in range(rng.choice([1, 2]))))))
     elif flavor.get("panic") and cls in TRACKED and rng.random() < 0.5 and g.fresh > 0:
         ids = sorted(set(rng.randrange(g.fresh) for _ in range(rng.choice([1, 1, 2]))))
         if rng.random() < 0.6:
@@ -321,6 +324,9 @@ def iter_scenario(rng, flavor, hid):
     extra = rng.choice([0, 0, 1, 3])
     ops = []
     st = rng.choice(["wcap", "wcap", "new", "walign", "shrunk"])
+    if flavor.get("illbehaved") and rng.random() < 0.2:
+        # the corner the random walk reaches slowly: a NEVER-ALLOCATED vector meets an ill-behaved callback
+        n, extra, st = 0, 0, rng.choice(["new", "wcap"])
     if st == "wcap":
         ops.append("wcap 0 %d" % (n + extra))
     elif st == "new":
@@ -349,7 +355,8 @@ def iter_scenario(rng, flavor, hid):
             else:
                 sc = "S" * r
             if flavor.get("illbehaved") and sc and rng.random() < 0.5:
-                sc = "h%d:%s" % (rng.choice([0, 1, 2, 3, 7, len(sc) + 2, 1000]), sc)
+                # a lying exact size hint: too small (also by one), too large, absurd
+                sc = "h%d:%s" % (rng.choice([0, 1, 2, 3, 7, max(sc.count("S") - 1, 1), len(sc) + 2, 1000]), sc)
             if flavor.get("panic") and sc and ":" not in sc and rng.random() < 0.3:
                 k = rng.randrange(len(sc)); sc = sc[:k] + "P" + sc[k + 1:]
             ops.append("splice 0 0 %s %s %s" % (bs, be, sc or "-"))
@@ -396,7 +403,10 @@ def iter_scenario(rng, flavor, hid):
     if kind != "intoiter":
         ops += rng.sample(["push 0", "pop 0", "insert 0 0", "remove 0 0", "clone 0 1", "shrinkfit 0", "trunc 0 1", "reserve 0 3"], rng.randint(0, 3))
     hdr = "H %s cls=%s" % (hid, cls)
-    if flavor.get("panic") and cls in TRACKED and fresh > 0 and rng.random() < 0.7:
+    if flavor.get("clone_panics") and clones and cls in TRACKED and n > 0 and rng.random() < 0.5:
+        # a Clone implementation that panics while the iterator is being cloned
+        hdr += " cp=" + ",".join(map(str, sorted(set(rng.randrange(n) for _ in range(rng.choice([1, 1, 2]))))))
+    elif flavor.get("panic") and cls in TRACKED and fresh > 0 and rng.random() < 0.7:
         # prefer identities inside the iterator's window (the elements pushed first have ids 0..n-1)
         pool = list(range(s, e)) if (kind in ("drain", "splice") and e > s and rng.random() < 0.7) else list(range(max(n, 1)))
         ids = sorted(set(rng.choice(pool) for _ in range(rng.choice([1, 1, 2]))))
@@ -415,7 +425,7 @@ FLAVORS = {
     "C08": {"start": "overaligned", "malformed": 0.03, "weights": {"shrinkfit": 3, "clear": 3, "shrinkto": 2, "reserve": 2, "splitoff": 2, "drainvec": 2, "intoiter": 1.5}},
     "C10": {"iter_share": 0.6, "malformed": 0.03, "weights": {"drain": 3, "splice": 3, "dfilter": 3, "intoiter": 3, "iterstep": 2.5}},
     "C11": {"malformed": 0.5},
-    "C12": {"iter_share": 0.5, "iter_kinds": ["intoiter"], "classes": TRACKED + ["8x8k", "8x8k"], "malformed": 0.03, "weights": {"clone": 4, "intoiter": 4, "iterstep": 2}},
+    "C12": {"iter_share": 0.5, "iter_kinds": ["intoiter"], "classes": TRACKED + ["8x8k", "8x8k"], "malformed": 0.03, "clone_panics": True, "weights": {"clone": 4, "intoiter": 4, "iterstep": 2}},
     "C14": {"raw": True, "malformed": 0.03, "weights": {"rawrt": 12}},
     "C15": {"malformed": 0.02, "weights": {"cmp": 25, "clone": 3, "push": 2}},
     "C17": {"iter_share": 0.5, "illbehaved": True, "classes": TRACKED, "malformed": 0.03, "weights": {"splice": 4, "extend": 3, "fromiter": 3, "retain": 2, "dedupby": 2, "dfilter": 2}},
